@@ -75,3 +75,11 @@ Definition theta_of (tb : list (string * list Qc)) (name : string) (k : nat) : Q
 Definition run_ref (tbl : itbl) (sp : qspec) (st : settings QcNum) (thetas : list (list (string * list Qc))) :=
   map (fun tb => qouts (ref_expected QcNum q_interp_add (interp_mul_q tbl) (normsys_code QcNum st) (histosys_code QcNum st)
                                      (clip_sample QcNum st) (clip_bin QcNum st) sp (theta_of tb))) thetas.
+
+(* reference likelihood terms; obs and aux are addressed by name through tables built by the harness from the
+   implementation's reported layout (channel order / auxdata_order) *)
+Definition run_ref_terms (tbl : itbl) (sp : qspec) (st : settings QcNum)
+           (cases : list (list (string * list Qc) * list (string * list Qc) * list (string * list Qc))) :=
+  map (fun c => let '(tb, ob, ax) := c in
+       map term_out (ref_terms QcNum q_interp_add (interp_mul_q tbl) (normsys_code QcNum st) (histosys_code QcNum st)
+                               (clip_sample QcNum st) (clip_bin QcNum st) sp (theta_of tb) (theta_of ob) (theta_of ax))) cases.
